@@ -52,6 +52,8 @@ structure DI (p : Prog) (st : DState) : Prop where
   ND : st.topo.Nodup
   CL : Closed (gadj p) st.topo
   OW : ∀ e ∈ st.owner, e.1 ∈ p.subs e.2 ∧ ∃ h ∈ st.entered, V.node e.2 ∈ p.postIn h
+  /-- the recorded owner of a body is *the* node holding it (the multiple-owner check) -/
+  OU : ∀ h ∈ st.topo, ∀ n, V.node n ∈ p.postIn h → ∀ s ∈ p.subs n, lookupN st.owner s = some n
   T : ∀ h ∈ st.topo, h ∈ st.entered
   K : ∀ e ∈ st.claimedIn, e.1 ∈ st.topo
   J1 : ∀ s ∈ st.topo, ∀ (pg : PGraph) (l : List Nat), p.graphs[s]? = some pg → pg.args = some l →
@@ -82,10 +84,12 @@ def Ext (st st' : DState) (s : Nat) : Prop :=
 /-- accumulator facts for the nodes / bodies processed so far -/
 def A1 (p : Prog) (pre : List V) (x : DState × Acc) : Prop :=
   ∀ n, V.node n ∈ pre → ∀ s ∈ p.subs n,
-    s ∈ x.1.topo ∧ ∀ y ∈ lookupL x.1.claimedIn s, y ∈ x.2.claimed
+    (s ∈ x.1.topo ∧ lookupN x.1.owner s = some n) ∧
+      ∀ y ∈ lookupL x.1.claimedIn s, y ∈ x.2.claimed
 
-def A1s (spre : List Nat) (x : DState × Acc) : Prop :=
-  ∀ s ∈ spre, s ∈ x.1.topo ∧ ∀ y ∈ lookupL x.1.claimedIn s, y ∈ x.2.claimed
+def A1s (n : Nat) (spre : List Nat) (x : DState × Acc) : Prop :=
+  ∀ s ∈ spre, (s ∈ x.1.topo ∧ lookupN x.1.owner s = some n) ∧
+    ∀ y ∈ lookupL x.1.claimedIn s, y ∈ x.2.claimed
 
 def A2 (p : Prog) (pre : List V) (x : DState × Acc) : Prop :=
   ∀ n, V.node n ∈ pre → p.isArg n = true → n ∈ x.2.used
@@ -110,9 +114,9 @@ theorem subStep_spec (p : Prog) (rec : Nat → DState → Except Err DState) (bo
     (n : Nat) (pre : List V) (spre : List Nat) (x x' : DState × Acc) (s : Nat)
     (hs : rankV p (.src s) < bound)
     (hsn : s ∈ p.subs n) (hnr : ∃ h ∈ st1.entered, V.node n ∈ p.postIn h)
-    (hx : FI p st1 x ∧ A1 p pre x ∧ A1s spre x ∧ A2 p pre x)
+    (hx : FI p st1 x ∧ A1 p pre x ∧ A1s n spre x ∧ A2 p pre x)
     (h : subStep rec n x s = .ok x') :
-    FI p st1 x' ∧ A1 p pre x' ∧ A1s (spre ++ [s]) x' ∧ A2 p pre x' := by
+    FI p st1 x' ∧ A1 p pre x' ∧ A1s n (spre ++ [s]) x' ∧ A2 p pre x' := by
   obtain ⟨hfi, ha1, ha1s, ha2⟩ := hx
   unfold subStep at h
   cases hr : rec s x.1 with
@@ -128,14 +132,14 @@ theorem subStep_spec (p : Prog) (rec : Nat → DState → Except Err DState) (bo
         st2.entered = st.entered →
         (∀ e ∈ st2.owner, e ∈ st.owner ∨ e = (s, n)) →
         (∀ y o, lookupN st.owner y = some o → lookupN st2.owner y = some o) →
-        (lookupN st2.owner s).isSome →
+        lookupN st2.owner s = some n →
         x' = (st2, { x.2 with all := union x.2.all (lookupL st.allIn s),
                               claimed := union x.2.claimed (lookupL st.claimedIn s) }) →
-        FI p st1 x' ∧ A1 p pre x' ∧ A1s (spre ++ [s]) x' ∧ A2 p pre x' := by
+        FI p st1 x' ∧ A1 p pre x' ∧ A1s n (spre ++ [s]) x' ∧ A2 p pre x' := by
       intro st2 ht hc he hown hstab2 hsown hx'
       subst hx'
       have hdi2 : DI p st2 := by
-        refine ⟨?_, ?_, ?_, ?_, ?_, ?_, ?_, ?_, ?_⟩
+        refine ⟨?_, ?_, ?_, ?_, ?_, ?_, ?_, ?_, ?_, ?_⟩
         · rw [ht]; exact hdi.ND
         · rw [ht]; exact hdi.CL
         · intro e he'
@@ -145,6 +149,9 @@ theorem subStep_spec (p : Prog) (rec : Nat → DState → Except Err DState) (bo
           · subst h1
             obtain ⟨h0, hh0, hr0⟩ := hnr
             exact ⟨hsn, h0, hent h0 (hfi.ent h0 hh0), hr0⟩
+        · intro h hh n' hn' s' hs'
+          rw [ht] at hh
+          exact hstab2 s' n' (hdi.OU h hh n' hn' s' hs')
         · rw [ht, he]; exact hdi.T
         · rw [ht, hc]; exact hdi.K
         · rw [ht, hc]; exact hdi.J1
@@ -172,29 +179,29 @@ theorem subStep_spec (p : Prog) (rec : Nat → DState → Except Err DState) (bo
             cases ho : lookupN x.1.owner y with
             | none => rw [ho] at h2; cases h2
             | some o => rw [hstab2 y o (hostab y o ho)]; rfl
-        · right; subst h1; exact hsown
+        · right; subst h1; rw [hsown]; rfl
         · right
           cases ho : lookupN st.owner y with
           | none => rw [ho] at h1; cases h1
           | some o => rw [hstab2 y o ho]; rfl
       · intro m hm s' hs'
         obtain ⟨h1, h2⟩ := ha1 m hm s' hs'
-        refine ⟨hmono2.1 s' h1, ?_⟩
+        refine ⟨⟨hmono2.1 s' h1.1, hstab2 s' m (hostab s' m h1.2)⟩, ?_⟩
         intro y hy
         simp only at hy ⊢
-        rw [hmono2.2 s' h1] at hy
+        rw [hmono2.2 s' h1.1] at hy
         exact mem_union.mpr (Or.inl (h2 y hy))
       · intro s' hs'
         rcases List.mem_append.mp hs' with hs' | hs'
         · obtain ⟨h1, h2⟩ := ha1s s' hs'
-          refine ⟨hmono2.1 s' h1, ?_⟩
+          refine ⟨⟨hmono2.1 s' h1.1, hstab2 s' n (hostab s' n h1.2)⟩, ?_⟩
           intro y hy
           simp only at hy ⊢
-          rw [hmono2.2 s' h1] at hy
+          rw [hmono2.2 s' h1.1] at hy
           exact mem_union.mpr (Or.inl (h2 y hy))
         · have : s' = s := by simpa using hs'
           subst this
-          refine ⟨by simp only; rw [ht]; exact hstopo, ?_⟩
+          refine ⟨⟨by simp only; rw [ht]; exact hstopo, hsown⟩, ?_⟩
           intro y hy
           simp only at hy ⊢
           rw [hc] at hy
@@ -215,12 +222,12 @@ theorem subStep_spec (p : Prog) (rec : Nat → DState → Except Err DState) (bo
           intro e; subst e; rw [hnone] at ho; cases ho
         simp only
         rw [lookupN_cons_ne _ _ _ _ hne]; exact ho
-      · simp only; rw [lookupN_cons_self]; rfl
+      · simp only; rw [lookupN_cons_self]
     · rename_i o hsome
       split at h
       · cases h
         exact main st rfl rfl rfl (fun e he' => Or.inl he') (fun y o ho => ho)
-          (by rw [hsome]; rfl) rfl
+          (by rw [hsome]; rename_i heq; rw [heq]) rfl
       · cases h
 
 theorem collectStep_spec (p : Prog) (hwf : WF p) (rec : Nat → DState → Except Err DState)
@@ -260,7 +267,7 @@ theorem collectStep_spec (p : Prog) (hwf : WF p) (rec : Nat → DState → Excep
       intro hn
       simp only [acc0, hn, if_true]
       exact mem_union.mpr (Or.inr (by simp))
-    have hx0 : FI p st1 (x.1, acc0) ∧ A1 p pre (x.1, acc0) ∧ A1s [] (x.1, acc0) ∧
+    have hx0 : FI p st1 (x.1, acc0) ∧ A1 p pre (x.1, acc0) ∧ A1s n [] (x.1, acc0) ∧
         A2 p pre (x.1, acc0) := by
       refine ⟨⟨hfi.di, hfi.mono, hfi.unfin, hfi.ent, hfi.ho, hfi.own⟩, ?_, ?_, ?_⟩
       · intro m hm s hs
@@ -269,7 +276,7 @@ theorem collectStep_spec (p : Prog) (hwf : WF p) (rec : Nat → DState → Excep
       · intro s hs; cases hs
       · intro m hm hma; exact hused0 m (ha2 m hm hma)
     have hfold := foldE_prefix
-      (fun spre c => FI p st1 c ∧ A1 p pre c ∧ A1s spre c ∧ A2 p pre c ∧
+      (fun spre c => FI p st1 c ∧ A1 p pre c ∧ A1s n spre c ∧ A2 p pre c ∧
         (∀ y ∈ acc0.used, y ∈ c.2.used))
       (p.subs n) [] (x.1, acc0) x'
       (fun spre s c c' hs hc hstep => by
@@ -337,7 +344,7 @@ theorem finishDiscover_spec (p : Prog) (hwf : WF p) (pg : PGraph) (g : Nat)
           lookupL ((g, union acc.claimed (argsFor pg acc)) :: st2.claimedIn) h
             = lookupL st2.claimedIn h :=
         fun h hh => lookupL_cons_ne _ _ _ _ (hne h hh)
-      refine ⟨⟨?_, ?_, ?_, ?_, ?_, ?_, ?_, ?_, ?_⟩, ⟨?_, ?_⟩, ?_, ?_, rfl, rfl, rfl⟩
+      refine ⟨⟨?_, ?_, ?_, ?_, ?_, ?_, ?_, ?_, ?_, ?_⟩, ⟨?_, ?_⟩, ?_, ?_, rfl, rfl, rfl⟩
       · -- ND
         simp only
         rw [List.nodup_append]
@@ -351,9 +358,17 @@ theorem finishDiscover_spec (p : Prog) (hwf : WF p) (pg : PGraph) (g : Nat)
         apply closed_snoc hdi.CL
         intro w hw
         obtain ⟨n, hn, hs⟩ := mem_gadj.mp hw
-        exact (ha1 n hn w hs).1
+        exact (ha1 n hn w hs).1.1
       · -- OW
         exact hdi.OW
+      · -- OU
+        intro h hh n hn s hs
+        simp only at hh ⊢
+        rcases List.mem_append.mp hh with hh | hh
+        · exact hdi.OU h hh n hn s hs
+        · have : h = g := by simpa using hh
+          subst this
+          exact (ha1 n hn s hs).1.2
       · -- T
         intro h hh
         simp only at hh ⊢
@@ -386,7 +401,7 @@ theorem finishDiscover_spec (p : Prog) (hwf : WF p) (pg : PGraph) (g : Nat)
         · exact List.mem_append_left _ (hdi.C s hs n hn s' hs')
         · have : s = g := by simpa using hs
           subst this
-          exact List.mem_append_left _ (ha1 n hn s' hs').1
+          exact List.mem_append_left _ (ha1 n hn s' hs').1.1
       · -- J2
         intro s hs n hn s' hs' x hx
         simp only at hs hx ⊢
@@ -399,7 +414,7 @@ theorem finishDiscover_spec (p : Prog) (hwf : WF p) (pg : PGraph) (g : Nat)
           subst this
           rw [lookupL_cons_self]
           obtain ⟨h1, h2⟩ := ha1 n hn s' hs'
-          rw [hstable s' h1] at hx
+          rw [hstable s' h1.1] at hx
           exact mem_union.mpr (Or.inl (h2 x hx))
       · -- L
         intro h hh n hn s hs a ha hia hmem
@@ -411,7 +426,7 @@ theorem finishDiscover_spec (p : Prog) (hwf : WF p) (pg : PGraph) (g : Nat)
         · have : h = g := by simpa using hh
           subst this
           obtain ⟨h1, h2⟩ := ha1 n hn s hs
-          rw [hstable s h1] at ha
+          rw [hstable s h1.1] at ha
           exact hleak' a (h2 a ha) (ha2 a hmem hia)
       · intro h hh; simp only; exact List.mem_append_left _ hh
       · intro h hh; simp only; exact hstable h hh
@@ -459,6 +474,7 @@ theorem discover_spec (p : Prog) (hwf : WF p) : ∀ (fuel : Nat) (bound : Nat),
                fun e he => by
                  obtain ⟨h1, h0, hh0, hr0⟩ := hdi.OW e he
                  exact ⟨h1, h0, List.mem_cons_of_mem _ hh0, hr0⟩,
+               hdi.OU,
                fun h hh => List.mem_cons_of_mem _ (hdi.T h hh), hdi.K, hdi.J1, hdi.C, hdi.J2, hdi.L⟩
             have hunf1 : ∀ h, Unfin st1 h ↔ (Unfin st h ∨ h = g) := by
               intro h
